@@ -14,11 +14,15 @@
                  (log starts at the snapshot's offset; data only under a real id)
     CacheOK      what C05/C08 provide: bytes held under `runId` are `hist runId`
     Agree        PSYNC2: history id2 equals history id1 below the switch offset
-    StoredCompat a position stored under the previous id while the cache is
-                 already labelled with the current id lies in the shared prefix
-                 (every state the tool produces itself satisfies it: the target's
-                 label is re-keyed in the same `syncMeta` call that relabels the
-                 cache; `storedCompat_needed` shows the conclusion fails without it)
+    StoredCompat (only for `outcome_continue_or_full`, which takes the stored
+                 label at face value) a position stored under the previous id
+                 while the cache is already labelled with the current id lies in
+                 the shared prefix. NOT an invariant (`storedCompat_not_invariant`:
+                 in in-memory mode `SetRunId` does not relabel the position) and
+                 necessary for the label-based conclusion (`storedCompat_needed`).
+                 The label-free statements are `continues_what_the_target_holds`,
+                 `reach_inv`, `reach_safe`: they assume nothing about labels, only
+                 the invariant `Truthful`, proved over every sequence.
 -/
 import GunYu.Model.Psync
 import GunYu.Proofs.Psync
@@ -71,7 +75,7 @@ theorem outcome_continue_or_full (w : World) (s : Source) (sp : SP) (c : Cache) 
       rcases hcid with e | ⟨e, hle⟩
       · rw [e]
       · rw [e]; exact hag n h0 (by omega)
-    rcases hK.read with ⟨_, hdel, hout, hle, hlow⟩ | ⟨left, size, hrdb, _, hdel⟩
+    rcases hK.read with ⟨_, hdel, hout, hle, hlow⟩ | ⟨left, size, hrdb, _, _, hdel⟩
     · left
       refine ⟨_, hdel, hK.full, hout, ?_, ?_⟩
       · intro n h0 hn
@@ -179,7 +183,7 @@ theorem never_beyond_stored (w : World) (s : Source) (sp : SP) (c : Cache) (d : 
     (h : (run w s sp c d).delivery = .stream start byte) : start = sp.offset := by
   rcases run_spec (w := w) (sp := sp) (d := d) hs hc with hF | hK | hC
   · rw [hF.delivery] at h; cases h
-  · rcases hK.read with ⟨_, hdel, _⟩ | ⟨_, _, _, _, hdel⟩
+  · rcases hK.read with ⟨_, hdel, _⟩ | ⟨_, _, _, _, _, hdel⟩
     · rw [hdel] at h; cases h; rfl
     · rw [hdel] at h; cases h
   · rw [hC.delivery] at h; cases h; rfl
@@ -331,7 +335,7 @@ theorem delivers_something (w : World) (s : Source) (sp : SP) (c : Cache) (d : C
   rcases run_spec (w := w) (sp := sp) (d := d) hs hc with hF | hK | hC
   · rw [hF.writer, hF.reader]; exact ⟨by simp, by simp⟩
   · rw [hK.writer]
-    rcases hK.read with ⟨h, _⟩ | ⟨_, _, _, h, _⟩ <;> rw [h] <;> exact ⟨by simp, by simp⟩
+    rcases hK.read with ⟨h, _⟩ | ⟨_, _, _, _, h, _⟩ <;> rw [h] <;> exact ⟨by simp, by simp⟩
   · rw [hC.writer, hC.reader]; exact ⟨by simp, by simp⟩
 
 /-! ## Non-vacuity: concrete worlds meeting the hypotheses, one per outcome -/
@@ -410,7 +414,10 @@ example : (run w0 s0 spD cD (dOf [9] 0)).reader = .aof 170 ∧ (run w0 s0 spD cD
     cache is labelled with the current id is continued from — although the
     prefix the target consumed is not the current history's (`syncMeta` compares
     the stored id only with the set of source ids, not with the cache's). The
-    tool never produces this state itself; it is excluded, not handled. -/
+    state itself is reachable (`storedCompat_not_invariant`), but then with a
+    stale label on a target that holds the current history; what is never
+    reachable is the combination with a target that really holds the previous
+    history beyond the switch offset (`reach_safe`). -/
 theorem storedCompat_needed :
     ∃ (sp : SP) (c : Cache) (d : CData), SourceWF s0 ∧ CacheWF c ∧ CacheOK w0 c d ∧ Agree w0 s0 ∧
       ¬ StoredCompat s0 sp c ∧ (run w0 s0 sp c d).reader = .aof sp.offset ∧
@@ -471,7 +478,7 @@ theorem truthful_preserved (resume : Bool) (w : World) (s : Source) (t : Tgt) (c
     exfalso
     rcases run_spec (w := w) (sp := t.stored) (d := d) hs hc with hF | hK | hC
     · rw [hF.delivery] at hdel; cases hdel
-    · rcases hK.read with ⟨_, h, _⟩ | ⟨_, _, _, _, h⟩ <;> rw [h] at hdel <;> cases hdel
+    · rcases hK.read with ⟨_, h, _⟩ | ⟨_, _, _, _, _, h⟩ <;> rw [h] at hdel <;> cases hdel
     · rw [hC.delivery] at hdel; cases hdel
   | snapshot tok left size =>
     simp only [Tgt.afterSend, hdel]
@@ -534,6 +541,106 @@ theorem truthful_initially (w : World) (s : Source) (hs : SourceWF s) (c : Cache
   rcases hin with x | x
   · exact absurd x.symm hs.id1_nq
   · exact absurd x.symm hs.id2_nq
+
+/-! ## Sequences of connections -/
+
+/-- replacing the cache (lost, trimmed, collected, another instance's) keeps the invariant
+    unless the new cache is newly labelled with the current id -/
+theorem truthful_cache_change (w : World) (s : Source) (t : Tgt) (c c' : Cache)
+    (htr : Truthful w s t c) (h : c'.runId = c.runId ∨ c'.runId ≠ s.id1) : Truthful w s t c' := by
+  intro hin h0
+  obtain ⟨tid, ht, hd⟩ := htr hin h0
+  refine ⟨tid, ht, ?_⟩
+  rcases hd with d1 | ⟨a, b, ag, hc⟩
+  · exact Or.inl d1
+  · refine Or.inr ⟨a, b, ag, ?_⟩
+    rcases h with e | e
+    · rw [e]; exact hc
+    · exact e
+
+/-- a position that cannot be continued (foreign id or negative offset) is truthful -/
+theorem truthful_forget (w : World) (s : Source) (sp' : SP) (tr : Truth) (c : Cache)
+    (h : (sp'.runId ≠ s.id1 ∧ sp'.runId ≠ s.id2) ∨ sp'.offset < 0) : Truthful w s ⟨sp', tr⟩ c := by
+  intro hin h0
+  rcases h with ⟨a, b⟩ | a
+  · rcases hin with x | x
+    · exact absurd x a
+    · exact absurd x b
+  · simp only at h0; omega
+
+/-- **invariant over every sequence** of connections (any ending, either mode),
+    source changes, cache losses / replacements and lost positions: the
+    hypotheses of the single-connection theorems hold in every reachable state. -/
+theorem reach_inv (w : World) (σ : Sys) (h : Reach w σ) :
+    SourceWF σ.s ∧ Agree w σ.s ∧ CacheWF σ.c ∧ CacheOK w σ.c σ.d ∧ Truthful w σ.s σ.t σ.c := by
+  induction h with
+  | init s be hs hag =>
+    exact ⟨hs, hag, ⟨trivial, trivial, trivial, fun _ => ⟨rfl, rfl⟩⟩, ⟨trivial, trivial⟩, truthful_initially w s hs _⟩
+  | conn σ resume done e k _ hk hb ih =>
+    obtain ⟨hs, hag, hc, hok, htr⟩ := ih
+    obtain ⟨a, b, _⟩ := cache_consistent_after w σ.s σ.t.stored σ.c σ.d hs hc hok hag k hk hb _ rfl
+    exact ⟨hs, hag, a, b, truthful_preserved resume w σ.s σ.t σ.c σ.d hs hc hok hag htr done e k⟩
+  | same σ s' _ hs' hag' h1 h2 ih =>
+    obtain ⟨_, _, hc, hok, htr⟩ := ih
+    exact ⟨hs', hag', hc, hok, truthful_same_ids w σ.s s' σ.t σ.c htr h1 h2⟩
+  | change σ s' _ hs' hag' h1 h2 h3 ih =>
+    obtain ⟨_, _, hc, hok, htr⟩ := ih
+    exact ⟨hs', hag', hc, hok, truthful_source_change w σ.s s' σ.t σ.c htr h1 h2 h3⟩
+  | cache σ c' d' _ hc' hok' hl ih =>
+    obtain ⟨hs, hag, _, _, htr⟩ := ih
+    exact ⟨hs, hag, hc', hok', truthful_cache_change w σ.s σ.t σ.c c' htr hl⟩
+  | forget σ sp' _ hf ih =>
+    obtain ⟨hs, hag, hc, hok, _⟩ := ih
+    exact ⟨hs, hag, hc, hok, truthful_forget w σ.s sp' σ.t.truth σ.c hf⟩
+
+/-- **end to end, over every sequence**: in every reachable state, whatever the
+    next connection delivers as log starts exactly where the target's data ends,
+    that data is a prefix of the source's current history, and the bytes are the
+    current history's from there on; anything else it delivers is a complete
+    snapshot (`outcome_continue_or_full`). -/
+theorem reach_safe (w : World) (σ : Sys) (h : Reach w σ) (start : Int) (byte : Int → UInt8)
+    (hd : (run w σ.s σ.t.stored σ.c σ.d).delivery = .stream start byte) :
+    start = σ.t.stored.offset ∧ ∃ tid, σ.t.truth = .at tid start ∧ AgreeBelow w tid σ.s.id1 start ∧
+      ∀ n, start ≤ n → byte n = w.hist σ.s.id1 n := by
+  obtain ⟨hs, hag, hc, hok, htr⟩ := reach_inv w σ h
+  exact continues_what_the_target_holds w σ.s σ.t σ.c σ.d hs hc hok hag htr start byte hd
+
+/-- a log is never continued on a target whose last snapshot replay did not complete, nor on an empty one -/
+theorem reach_never_streams_onto_dirty (w : World) (σ : Sys) (h : Reach w σ) (start : Int) (byte : Int → UInt8)
+    (hd : (run w σ.s σ.t.stored σ.c σ.d).delivery = .stream start byte) :
+    σ.t.truth ≠ .dirty ∧ σ.t.truth ≠ .none := by
+  obtain ⟨_, tid, ht, _⟩ := reach_safe w σ h start byte hd
+  rw [ht]; exact ⟨by simp, by simp⟩
+
+/-- **a replayed snapshot is never behind the stored position**: when the source
+    granted CONTINUE and a cached snapshot is replayed, either nothing was stored
+    or the stored offset lies strictly before the snapshot's (the log, when it
+    covers the stored offset, is always preferred). -/
+theorem snapshot_not_behind (w : World) (s : Source) (sp : SP) (c : Cache) (d : CData)
+    (hs : SourceWF s) (hc : CacheWF c) (tok : Id × Int) (left size : Int)
+    (hf : (run w s sp c d).mt.ps.full = false)
+    (h : (run w s sp c d).delivery = .snapshot tok left size) :
+    sp.isInitial = true ∨ sp.offset < left := by
+  rcases run_spec (w := w) (sp := sp) (d := d) hs hc with hF | hK | hC
+  · rw [hF.full] at hf; cases hf
+  · rcases hK.read with ⟨_, hdel, _⟩ | ⟨l', s', _, hlt, _, hdel⟩
+    · rw [hdel] at h; cases h
+    · rw [hdel] at h; cases h; exact hlt
+  · rw [hC.delivery] at h; cases h
+
+/-- `StoredCompat` is NOT an invariant: in in-memory mode a granted continuation
+    after a failover relabels the cache but not the stored position, and the log
+    then carries the position beyond the switch offset (example A continued to
+    150). `Truthful` survives (the target really holds the current history), so
+    `continues_what_the_target_holds` / `reach_safe` apply where
+    `outcome_continue_or_full` does not. -/
+theorem storedCompat_not_invariant :
+    Truthful w0 s0 ⟨⟨[2], 80⟩, .at [2] 80⟩ cA ∧ StoredCompat s0 ⟨[2], 80⟩ cA ∧
+    ¬ StoredCompat s0 (step false w0 s0 ⟨⟨[2], 80⟩, .at [2] 80⟩ cA (dOf [2] 0) true 150).stored
+        (cacheAfter (run w0 s0 ⟨[2], 80⟩ cA (dOf [2] 0)).mt 70) := by
+  refine ⟨?_, by unfold StoredCompat; decide, by unfold StoredCompat; decide⟩
+  intro _ _
+  exact ⟨[2], rfl, Or.inr ⟨rfl, by decide, fun _ _ _ => rfl, by decide⟩⟩
 
 /-! ### what the three repairs are needed for (behaviour before 07a0622, 23cb23d, 58997e8) -/
 
